@@ -9,7 +9,13 @@ from hypothesis import strategies as st
 from . import netgen as ng
 
 
-def profile(big=False, cat=False, exclude=False):
+def profile(big=False, cat=False, exclude=False, family='2d'):
+    if family == '1d':
+        # MPSConv1d: no Conv1d-BN fusion in the library ("TODO: add Conv1d"), so no BN here;
+        # padding through the layer's own `padding` argument
+        return ng.Profile(family='1d', pads=('same', 'same', 'none'), standalone_bn=False, bn=False,
+                          exclude=exclude, reuse=False, multi_input=False, cat=cat, cat_t=False,
+                          max_blocks=6 if big else 4, min_blocks=1, max_c=6, kmax=5, dil=(1, 2))
     return ng.Profile(family='2d', standalone_bn=False, exclude=exclude, reuse=False,
                       multi_input=False, cat=cat, cat_t=False, max_blocks=6 if big else 4,
                       min_blocks=1, max_c=6)
@@ -99,7 +105,7 @@ def float_input_layers(spec):
     for n in spec['nodes']:
         uf.find(n['id'])
         cin = shapes[n['in'][0]][0]
-        defining = n['op'] == 'linear' or (n['op'] == 'conv2d' and not ng.is_dw(n) and
+        defining = n['op'] == 'linear' or (n['op'] in ng.CONV_OPS and not ng.is_dw(n) and
                                            not (cin == 1 and n['cout'] == 1))
         if not defining:
             for i in n['in']:
@@ -120,6 +126,9 @@ def fix_tail(spec):
     if len(shapes[out]) == 3:
         node = {'id': nid, 'op': 'conv2d', 'in': [out], 'k': 1, 'p': 0, 'stride': 1, 'cout': 2,
                 'bias': True, 'bn': False, 'groups': 1}
+    elif len(shapes[out]) == 2:
+        node = {'id': nid, 'op': 'conv1d', 'in': [out], 'k': 1, 'dil': 1, 'stride': 1, 'pad': 'none',
+                'cout': 2, 'bias': True, 'bn': False, 'groups': 1}
     else:
         node = {'id': nid, 'op': 'linear', 'in': [out], 'cout': 2, 'bias': True, 'bn': False}
     spec = dict(spec, nodes=spec['nodes'] + [node], out=nid)
